@@ -96,6 +96,12 @@ def check(run):
     route(R)
     track(R)
     strict(R)
+    from . import C04
+    R.rule('C05.lazy', 'frames are pulled from the parser one at a time: valid text that precedes a malformed frame in the '
+                       'same read is delivered before the error is reported', 3)
+    with R.as_rule('C05.lazy'):
+        C04.wire(R)
+        C04.order(R)
     from . import C06
     with R.as_rule('C05.route'):
         C06.activate(R)      # the parser is put in compression mode only when the extension was accepted
